@@ -18,7 +18,13 @@ func addOverflow(db *Database, pl cellPayload) ([]byte, error) {
 	to := pl.Payload
 	overflow := pl.Overflow
 	for {
-		if overflow == 0 {
+		if overflow == 0 || int64(len(to)) >= pl.Length {
+			// Stop as soon as the payload is complete: a chain that is longer
+			// than the payload (or cyclic) must not be followed forever, and a
+			// chain that ends early is corruption, not a reason to panic.
+			if int64(len(to)) < pl.Length {
+				return nil, ErrCorrupted
+			}
 			return to[:pl.Length], nil
 		}
 		buf, err := db.page(overflow)
